@@ -596,13 +596,15 @@ def main(tier):
     states += res.distinct
     transitions += res.generated
 
-    # 1c. try / except: every body of <= 5 lines over {try, except, assign, print, if} reading only `a`
+    # 1c. try / except: every body of 4 (thorough: 4-5) lines over {try, except, assign, print} reading only `a`;
+    #     the bodies that contain a try are replayed
     progs_try = {}
-    res = run_tlc("bfs5-try", base_constants(MaxLines=5, Kinds=tlc.Sub("MCKindsTry"), InitSets=tlc.Sub("MCInitNoneA"),
-                                             ReadSets=tlc.Sub("MCReadsA"), ExportMin=4), progs_try)
-    tlc_runs["bfs5-try"] = res.summary()
+    res = run_tlc("bfs-try", base_constants(MaxLines=(4 if quick else 5), ExprOn=False, Kinds=tlc.Sub("MCKindsTry"),
+                                            InitSets=tlc.Sub("MCInitNoneA"), ReadSets=tlc.Sub("MCReadsA"),
+                                            ExportMin=4), progs_try)
+    tlc_runs["bfs-try"] = res.summary()
     if not res.ok:
-        return tlc_failed(res, "bfs5-try")
+        return tlc_failed(res, "bfs-try")
     states += res.distinct
     transitions += res.generated
 
